@@ -183,6 +183,10 @@ func (w *world) growAll() []time.Duration {
 	return out
 }
 
+// Hist is the dialer history (also run under C19: accepted ReconnectTime / MaxReconnectTime /
+// DialAsynch values - a zero maximum among them, which means "no growth" - are the ones in effect).
+func Hist(depth int, viaDialer bool) { hist(depth, viaDialer) }
+
 func hist(depth int, viaDialer bool) {
 	w := &world{c: cfgs[kit.ChooseFree(len(cfgs))]}
 	s, err := xpub.NewSocket()
